@@ -353,6 +353,49 @@ def build_mt(w):
                  'len(worker._invalidated_clients) == 0',
                  'forall(Obj, lambda c: implies(c != client_id, (c in worker._cache) == ((c in old(worker._cache)) and not exists(0, len(old(worker._invalidated_clients)), lambda j: old(worker._invalidated_clients)[j] == c))))'])
 
+    # ---- what the multi-tenant pool transmits
+    w.rec('PSt', [('user_schema', 'Opt[Obj]'), ('reflection_cache', 'Opt[Obj]'), ('database_config', 'Opt[Obj]')], POOL, 'PickledState')
+    w.rec('PSch', [('dbs', 'Opt[Map[Obj,PSt]]'), ('global_schema', 'Opt[Obj]'), ('instance_config', 'Opt[Obj]'), ('dropped_dbs', 'Seq[Obj]')], POOL, 'PickledSchema')
+    w.partial_types['MultiTenantPool._compute_compile_preargs.<locals>.sync_worker_state_cb'] = 'CbMT'
+    w.rec('CbMT', [('worker', 'MTW'), ('client_id', 'Obj'), ('dbname', 'Obj'), ('kw', 'Map[str,Obj]')])
+    P = {'self': 'PoolT', 'method_name': 'Obj', 'worker': 'MTW', 'dbname': 'Obj', 'user_schema_pickle': 'Obj', 'global_schema_pickle': 'Obj', 'reflection_cache': 'Obj',
+         'database_config': 'Obj', 'system_config': 'Obj'}
+    C = 'some(worker.current_client_id)'
+    INVC = 'exists(0, len(worker._invalidated_clients), lambda j: worker._invalidated_clients[j] == %s)' % C
+    KN = '(%s in worker._cache and not %s)' % (C, INVC)                 # the tenant is known to the worker (as far as the server believes) when the call is made
+    KNDB = '(%s and dbname in worker._cache[%s].dbs)' % (KN, C)
+    PSV = 'some(result[0][2])'; HASPS = '(not is_none(result[0][2]))'
+    HASDB = '(%s and not is_none(%s.dbs) and dbname in some(%s.dbs))' % (HASPS, PSV, PSV); DBV = 'some(%s.dbs)[dbname]' % PSV
+    CBV = 'some(result[1])'
+    def sent_mt(present, value, believed_ok, comp_kw, raw, packed):
+        tv = ('pk(%s)' % raw) if packed else raw
+        return ['implies(not (%s), %s)' % (present, believed_ok),                                                          # not transmitted = what the server believes the worker holds (by identity)
+                'implies(%s, %s == %s)' % (present, value, tv),
+                'implies(%s, not is_none(result[1]) and ("%s" in %s.kw) and %s.kw["%s"] == %s)' % (present, comp_kw, CBV, CBV, comp_kw, raw),
+                'implies(not (%s) and not is_none(result[1]), not ("%s" in %s.kw))' % (present, comp_kw, CBV)]
+    TEN = 'old(worker._cache[%s])' % C
+    ens_mt = ['result[0][1] == %s' % C, 'result[0][5] == method_name', 'result[0][6] == dbname', 'result[0][3] == worker._invalidated_clients',
+              'is_none(result[1]) == is_none(result[0][2])',
+              'implies(not is_none(result[1]), %s.worker == worker and %s.client_id == %s and %s.dbname == dbname)' % (CBV, CBV, C, CBV),
+              # a tenant the worker does not know gets everything, a database it does not know the three per-database parts
+              'implies(not old(%s), %s and not is_none(%s.user_schema) and not is_none(%s.reflection_cache) and not is_none(%s.database_config) and not is_none(%s.global_schema) and not is_none(%s.instance_config))'
+              % (KN, HASDB, DBV, DBV, DBV, PSV, PSV),
+              'implies(old(%s) and not old(%s), %s and not is_none(%s.user_schema) and not is_none(%s.reflection_cache) and not is_none(%s.database_config))' % (KN, KNDB, HASDB, DBV, DBV, DBV)]
+    ens_mt += sent_mt('%s and not is_none(%s.user_schema)' % (HASDB, DBV), 'some(%s.user_schema)' % DBV, 'old(%s) and %s.dbs[dbname].user_schema_pickle == user_schema_pickle' % (KNDB, TEN), 'user_schema_pickle', 'user_schema_pickle', False)
+    ens_mt += sent_mt('%s and not is_none(%s.reflection_cache)' % (HASDB, DBV), 'some(%s.reflection_cache)' % DBV, 'old(%s) and %s.dbs[dbname].reflection_cache == reflection_cache' % (KNDB, TEN), 'reflection_cache', 'reflection_cache', True)
+    ens_mt += sent_mt('%s and not is_none(%s.database_config)' % (HASDB, DBV), 'some(%s.database_config)' % DBV, 'old(%s) and %s.dbs[dbname].database_config == database_config' % (KNDB, TEN), 'database_config', 'database_config', True)
+    ens_mt += sent_mt('%s and not is_none(%s.global_schema)' % (HASPS, PSV), 'some(%s.global_schema)' % PSV, 'old(%s) and %s.global_schema_pickle == global_schema_pickle' % (KN, TEN), 'global_schema_pickle', 'global_schema_pickle', False)
+    ens_mt += sent_mt('%s and not is_none(%s.instance_config)' % (HASPS, PSV), 'some(%s.instance_config)' % PSV, 'old(%s) and %s.system_config == system_config' % (KN, TEN), 'instance_config', 'system_config', True)
+    w.contract(POOL, 'MultiTenantPool._compute_compile_preargs', params=P, returns='Tuple[Tuple[Obj,Obj,Opt[PSch],Seq[Obj],none,Obj,Obj],Opt[CbMT]]',
+        requires=['not is_none(worker.current_client_id)'], modifies=['MTW._invalidated_clients'],
+        ensures=ens_mt + ['heap_same("MTW._cache")', 'heap_same("TS.dbs") and heap_same("TS.global_schema_pickle") and heap_same("TS.system_config")'],
+        raises={'AssertionError': dict(only_if='False')}, hints={'kwdict_vars': ['to_update', 'pickled']})
+    w.contract(POOL, 'MultiTenantWorker.maybe_invalidate_last', params={'self': 'MTW'}, returns='none', trusted=True, modifies=['MTW._invalidated_clients'],
+        # (assumed: OrderedDict order / next(reversed(..)) are outside the subset) at most one more tenant is marked, and it is a cached one
+        ensures=['is_prefix(old(self._invalidated_clients), self._invalidated_clients)', 'len(self._invalidated_clients) <= old(len(self._invalidated_clients)) + 1',
+                 'forall(old(len(self._invalidated_clients)), len(self._invalidated_clients), lambda j: self._invalidated_clients[j] in self._cache)',
+                 'heap_same_except("MTW._invalidated_clients", self)'])
+
 def configure(vf):
     pass
 
